@@ -75,7 +75,7 @@ def line_equal(impl, model, rtol=FLOAT_RTOL):
     return all(tok_equal(x, y, rtol) for x, y in zip(fa, fb))
 
 
-def compare_streams(ops, impl, model, rtol=FLOAT_RTOL):
+def compare_streams(ops, impl, model, rtol=FLOAT_RTOL, skip=frozenset()):
     """Returns (n_compared, n_unmodelled, first_disagreement or None, stopped_at or None).
     A disagreement is (index, op, impl_line, model_line)."""
     compared = 0
@@ -96,6 +96,10 @@ def compare_streams(ops, impl, model, rtol=FLOAT_RTOL):
                 # both failed without a unit being created?  cannot know; stop as well
                 return compared, unmodelled, None, i
             return compared, unmodelled, None, i
+        if i in skip:
+            # both must still agree on success vs failure
+            if a.startswith("ERR") == b.startswith("ERR"):
+                continue
         compared += 1
         if not line_equal(a, b, rtol):
             return compared, unmodelled, (i, op, a, b), None
